@@ -495,23 +495,17 @@ void splinetable<Alloc>::write_fits_core(fitsfile* fits) const{
 	 */
 	{
 		std::unique_ptr<long[]> naxes(new long[ndim]);
-		uint64_t nelements=1;
-		for(uint32_t i=0; i<ndim; i++) {
+		for(uint32_t i=0; i<ndim; i++)
 			naxes[i] = this->naxes[ndim - i - 1];
-			nelements *= naxes[i];
-		}
 		fits_create_img(fits, FLOAT_IMG, ndim, naxes.get(), &error);
 		if (error != 0)
 			throw std::runtime_error("Failed to create FITS image for spline coefficients");
-	
-		std::unique_ptr<long[]> fpixel(new long[ndim]);
-		std::fill_n(fpixel.get(),ndim,1L);
-		fits_write_pix(fits, TFLOAT, fpixel.get(), nelements, &coefficients[0], &error);
-		if (error != 0)
-			throw std::runtime_error("Failed to write coefficients to FITS image");
 	}
 	
 	// Write out header information
+	// This is done before writing the coefficients so that CFITSIO never has to
+	// move data which is already in the file when the header grows by a block;
+	// errors which occur while it shifts blocks around are not reported to us.
 	const char typeString[]="Spline Coefficient Table";
 	fits_write_key(fits, TSTRING, "TYPE", (void*)&typeString, NULL, &error);
 	if (error != 0)
@@ -548,6 +542,16 @@ void splinetable<Alloc>::write_fits_core(fitsfile* fits) const{
 			throw std::runtime_error("Failed to write aux entry");
 	}
 	// done with headers
+	
+	// Write the coefficients
+	{
+		uint64_t nelements=get_ncoeffs();
+		std::unique_ptr<long[]> fpixel(new long[ndim]);
+		std::fill_n(fpixel.get(),ndim,1L);
+		fits_write_pix(fits, TFLOAT, fpixel.get(), nelements, &coefficients[0], &error);
+		if (error != 0)
+			throw std::runtime_error("Failed to write coefficients to FITS image");
+	}
 	
 	// Write knot vectors
 	for(uint32_t i=0; i<ndim; i++) {
